@@ -8,7 +8,7 @@ from ..terms import A, C, F, V, L, NIL, call, conj, TRUE, CUT, show_program, sho
 
 ID = 'C04'
 LEVEL = 'model_checking'
-RULE = ('(a) two engines, generator level: every ordered pair of actor scripts from a menu of 12 (create engine, load '
+RULE = ('(a) two engines, generator level: every ordered pair of actor scripts from a menu of 15 (create engine, retractall / retract of predicates the engine does not know yet, load '
         'script with overwrite on/off, assert_fact, register_function, clear, atom, start/next/close of a query or a '
         'retract) x ALL merge orders of their steps; (b) one engine: every pair (and every triple from a subset) of '
         'side-effect-free queries over disjoint variables (recursion, cut, if-then-else, negation, \\=, once, findall, '
@@ -47,6 +47,10 @@ MENU = [
     [('assert', 'p', 'a1'), ('start', 'p'), ('next',), ('clear',), ('next',)],
     [('load', 'S1', True), ('load', 'S1', False), ('start', 'p'), ('next',), ('next',), ('next',)],
     [('reg', 'p'), ('assert', 'p', 'd'), ('start', 'p'), ('next',), ('next',)],
+    # operations on predicates that do not exist yet in this engine (the "reset" idiom)
+    [('retractall', 'p'), ('assert', 'p', 'r1'), ('start', 'p'), ('next',), ('next',)],
+    [('retractall', 'f'), ('retractall', 'p'), ('rstart', 'p'), ('next',), ('assert', 'f', 'r2')],
+    [('rstart', 'q'), ('next',), ('retractall', 'q'), ('assert', 'q', 'r3'), ('assert', 'p', 'r4')],
 ]
 
 
@@ -86,6 +90,9 @@ class Actor:
                 for _ in impl.engine.unify(arg1, marker):
                     yield False
             yp.register_function(op[1], f)
+        elif k == 'retractall':
+            n = len(list(self.yp.query('retractall', [self.yp.functor(op[1], [self.yp.variable()])])))
+            self.log.append(('retractall-answers', n))
         elif k == 'clear':
             self.yp.clear()
         elif k == 'atom':
